@@ -100,7 +100,10 @@ fn main() {
         }
         "C08" => {
             run.rule = "triples (a, b, c) of dynamic values of one generated type (incl. NaN, +-0, fds, maybe): b and c are copies, one-leaf near misses or fresh values; checked: reflexive/symmetric/transitive ==, cmp antisymmetric/transitive/consistent with == and partial_cmp, equal => equal hash, try_clone / try_to_owned twins keep value, equality, hash and signature, value_signature() == the type it was built with == the signature carried by its encoded variant; non-trivial = nesting depth >= 2 and the type contains a double or a dict; distinct by hash(type, a, b, c)".into();
-            vec![spec("laws", 200_000, 5_000_000, 200, c_value::c08_case), spec("t-value-t", 100_000, 3_000_000, 120, c_static::value_law_case)]
+            {
+                run.rule.push_str("; plus construction routes: a vector (of bytes, integers, strings, tuples, vectors, dynamic values incl. a value holding a value) handed to Array::from by value, as a slice and by reference and to Value::new must give equal values with the element signature, equal hash, the predicted content and the reference bytes");
+                vec![spec("laws", 200_000, 5_000_000, 200, c_value::c08_case), spec("t-value-t", 100_000, 3_000_000, 120, c_static::value_law_case), spec("routes", 60_000, 1_000_000, 60, c_value::c08_routes_case)]
+            }
         }
         _ => {
             eprintln!("unknown property {id} for h_zvariant");
